@@ -73,3 +73,29 @@ pub assume_specification<T, E> [Result::<T, E>::unwrap_or] (r: Result<T, E>, def
     ensures r is Ok ==> v == r->Ok_0, r is Err ==> v == default;
 pub assume_specification<T: Default, E> [Result::<T, E>::unwrap_or_default] (r: Result<T, E>) -> (v: T)
     ensures r is Ok ==> v == r->Ok_0;
+// ---- byte-string ordering and the sort/concat helpers used by the factory keys (ASSUMED) ----
+/// lexicographic order on byte strings (what `<[u8] as Ord>::cmp` computes): a total order
+pub uninterp spec fn lex_le(a: Seq<u8>, b: Seq<u8>) -> bool;
+pub broadcast axiom fn ax_lex_total(a: Seq<u8>, b: Seq<u8>) ensures #[trigger] lex_le(a, b) || lex_le(b, a);
+pub broadcast axiom fn ax_lex_antisym(a: Seq<u8>, b: Seq<u8>) requires #[trigger] lex_le(a, b), #[trigger] lex_le(b, a) ensures a == b;
+pub broadcast axiom fn ax_lex_trans(a: Seq<u8>, b: Seq<u8>, c: Seq<u8>) requires #[trigger] lex_le(a, b), #[trigger] lex_le(b, c) ensures lex_le(a, c);
+pub broadcast group group_lex { ax_lex_total, ax_lex_antisym, ax_lex_trans }
+//@broadcast group_lex
+pub open spec fn sort2(a: Seq<u8>, b: Seq<u8>) -> Seq<Seq<u8>> { if lex_le(a, b) { seq![a, b] } else { seq![b, a] } }
+pub open spec fn sort3(a: Seq<u8>, b: Seq<u8>, c: Seq<u8>) -> Seq<Seq<u8>> {
+    if lex_le(a, b) { if lex_le(b, c) { seq![a, b, c] } else if lex_le(a, c) { seq![a, c, b] } else { seq![c, a, b] } }
+    else { if lex_le(a, c) { seq![b, a, c] } else if lex_le(b, c) { seq![b, c, a] } else { seq![c, b, a] } }
+}
+pub trait HasBytes { spec fn bytes_of(&self) -> Seq<u8>; }
+/// D12 target: `v.sort_by(|a, b| a.as_bytes().cmp(b.as_bytes()))` on 2 or 3 elements (stable sort by the byte strings)
+#[verifier::external_body]
+pub fn verif_sort_by_bytes<T: HasBytes>(v: &mut Vec<T>)
+    ensures final(v)@.len() == old(v)@.len(),
+        old(v)@.len() == 2 ==> final(v)@.map_values(|x: T| x.bytes_of()) =~= sort2(old(v)@[0].bytes_of(), old(v)@[1].bytes_of()),
+        old(v)@.len() == 3 ==> final(v)@.map_values(|x: T| x.bytes_of()) =~= sort3(old(v)@[0].bytes_of(), old(v)@[1].bytes_of(), old(v)@[2].bytes_of()),
+{ unimplemented!() }
+/// D13 targets: `[a, b].concat()` / `[a, b, c].concat()` on byte slices
+#[verifier::external_body] pub fn verif_concat2(a: &[u8], b: &[u8]) -> (r: Vec<u8>) ensures r@ == a@ + b@ { unimplemented!() }
+#[verifier::external_body] pub fn verif_concat3(a: &[u8], b: &[u8], c: &[u8]) -> (r: Vec<u8>) ensures r@ == a@ + b@ + c@ { unimplemented!() }
+/// D14 target: `arr.to_vec()` (element-wise clone)
+#[verifier::external_body] pub fn verif_arr_to_vec<T, const N: usize>(a: &[T; N]) -> (r: Vec<T>) ensures r@ == a@ { unimplemented!() }
